@@ -757,7 +757,7 @@ pub fn check_state(p: &Props, ops: &[Op], info: &PlanInfo, obs: &Obs, last_only:
             out.push(v("C13", "setup-dispose-panicked", e.clone()));
         }
         // world side: exactly the default-provided resources are created, existing ones are untouched
-        let dflt: u8 = info.nodes.iter().fold(0, |m, n| m | n.defaults);
+        let dflt: u8 = info.nodes.iter().filter(|n| !info.rejected.contains(&n.id)).fold(0, |m, n| m | n.defaults);
         let want = |pre: Option<u64>, bit: u8| -> Option<u64> {
             match pre {
                 Some(v) => Some(v),
@@ -796,7 +796,7 @@ pub fn check_state(p: &Props, ops: &[Op], info: &PlanInfo, obs: &Obs, last_only:
             }
         }
         if let Some(su) = &obs.setups {
-            for n in &info.nodes {
+            for n in info.nodes.iter().filter(|n| !info.rejected.contains(&n.id)) {
                 // batch controllers have no setup hook of their own; statically typed systems use the
                 // library's default setup (checked through the world above)
                 if n.kind != Kind::Batch && !n.is_static && su[n.id] != 1 {
@@ -805,14 +805,14 @@ pub fn check_state(p: &Props, ops: &[Op], info: &PlanInfo, obs: &Obs, last_only:
             }
         }
         if let Some(su) = &obs.setups2 {
-            for n in &info.nodes {
+            for n in info.nodes.iter().filter(|n| !info.rejected.contains(&n.id)) {
                 if n.kind != Kind::Batch && !n.is_static && su[n.id] != 2 {
                     out.push(v("C13", "setup-skipped-on-populated-world", format!("system {} (depth {}) has been set up {} times after two Dispatcher::setup calls (the second on a world that already holds every resource)", n.id, n.depth, su[n.id])));
                 }
             }
         }
         if let Some(di) = &obs.disposes {
-            for n in &info.nodes {
+            for n in info.nodes.iter().filter(|n| !info.rejected.contains(&n.id)) {
                 if n.kind != Kind::Batch && di[n.id] != 1 {
                     let sig = if n.parent.is_some() { "dispose-not-forwarded-into-batch" } else { "dispose-count" };
                     out.push(v("C13", sig, format!("system {} (depth {}) was disposed {} times", n.id, n.depth, di[n.id])));
@@ -820,7 +820,7 @@ pub fn check_state(p: &Props, ops: &[Op], info: &PlanInfo, obs: &Obs, last_only:
             }
         }
         if let Some((su, di)) = &obs.setups_via_sendable {
-            for n in &info.nodes {
+            for n in info.nodes.iter().filter(|n| !info.rejected.contains(&n.id)) {
                 if n.kind != Kind::Batch && !n.is_static && su[n.id] != 1 {
                     out.push(v("C13", "setup-count-via-sendable", format!("system {} (depth {}) was set up {} times when the dispatcher was converted and its sendable form set up", n.id, n.depth, su[n.id])));
                 }
@@ -830,7 +830,7 @@ pub fn check_state(p: &Props, ops: &[Op], info: &PlanInfo, obs: &Obs, last_only:
             }
         }
         if let (Some(su), Some(di)) = (&obs.setups_via_run_now, &obs.disposes_via_run_now) {
-            for n in &info.nodes {
+            for n in info.nodes.iter().filter(|n| !info.rejected.contains(&n.id)) {
                 if n.kind != Kind::Batch && !n.is_static && su[n.id] != 1 {
                     out.push(v("C13", "setup-count-via-run-now", format!("system {} (depth {}) was set up {} times when the dispatcher was set up through its RunNow implementation", n.id, n.depth, su[n.id])));
                 }
